@@ -60,8 +60,7 @@ pub fn errk(e: &IppParseError) -> ErrK {
     }
 }
 
-/// reads past EOF tolerated before a loop is declared non-terminating
-pub const EOF_READ_LIMIT: u64 = 1000;
+pub use vkit::src::EOF_READ_LIMIT;
 
 /// blocking parse of `data` delivered according to `plan`, payload read to the end
 pub fn sync_parse(data: &Arc<Vec<u8>>, plan: Plan) -> (Outcome, Shared) {
@@ -136,6 +135,13 @@ pub fn async_parse(data: &Arc<Vec<u8>>, plan: Plan) -> (Outcome, Shared, ExecSta
         };
         src::run(fut, &sh, MAX_IDLE_POLLS)
     });
+    if shared.snapshot().5 > EOF_READ_LIMIT {
+        let st = match &r {
+            Ok((_, st)) => st.clone(),
+            Err(_) => ExecStats::default(),
+        };
+        return (Outcome::Hang(format!("async parser kept reading after end-of-stream (more than {EOF_READ_LIMIT} reads)")), shared, st);
+    }
     match r {
         Ok((Exec::Ready(o), st)) => (o, shared, st),
         Ok((Exec::Deadlock, st)) => (Outcome::Hang("async parser returned Pending without a registered wake-up".into()), shared, st),
